@@ -32,37 +32,41 @@ MRU(ps, p) == LET rest == SelectSeq(ps, LAMBDA x : x # p)
                   all == <<p>> \o rest
               IN IF Len(all) > PeerCap THEN SubSeq(all, 1, PeerCap) ELSE all
 
+\* "st" = the records; "derived" = what the heads table and the by-key index answer (C13 / C18 / C05 speak about those)
 Same(pre, post, fields) ==
   /\ ("cap" \in fields => post.cap = pre.cap)
-  /\ ("st" \in fields => post.st = pre.st /\ post.heads = pre.heads /\ post.bykey = pre.bykey)
+  /\ ("st" \in fields => post.st = pre.st)
+  /\ ("derived" \in fields => post.heads = pre.heads /\ post.bykey = pre.bykey)
   /\ ("peers" \in fields => post.peers = pre.peers)
   /\ ("pol" \in fields => post.pol = pre.pol)
-All == {"cap", "st", "peers", "pol"}
+All == {"cap", "st", "derived", "peers", "pol"}
 
-\* what each property looks at
+\* what each property looks at (every check is modular: how an operation treats the field that is another property's
+\* subject is taken from the log)
 Sees(f) == CASE Prop = "C07" -> f \in {"cap", "st"}
-             [] Prop = "C15" -> f \in {"pol", "cap"}
-             [] Prop = "C16" -> TRUE
-             [] Prop = "C17" -> f \in {"peers", "cap"}
-             [] Prop = "C18" -> f \in {"st"}
+             [] Prop = "C15" -> f \in {"pol"}
+             [] Prop = "C16" -> f \in {"cap", "st", "peers", "pol"}    \* plus the derived answers when a document is removed
+             [] Prop = "C17" -> f \in {"peers"}
+             [] Prop = "C18" -> f \in {"st", "derived"}
              [] Prop = "C13" -> FALSE          \* only the author heads against the records, after every call
 Fields == {f \in All : Sees(f)}
 
-Frame(r, d) == \A o \in 1..N : o # d => Same(docs[o], r.docs[o], IF Prop = "C16" THEN All ELSE Fields)
+Frame(r, d) == \A o \in 1..N : o # d => Same(docs[o], r.docs[o], IF Prop = "C16" /\ r.ev = "Remove" THEN All ELSE Fields)
 
 Target(r) ==
   LET d == r.d  pre == docs[d]  post == r.docs[d] IN
   CASE r.ev = "Import" ->
          /\ r.res = "ok"
          /\ Same(pre, post, Fields \ {"cap"})
-         /\ "cap" \in Fields =>
+         /\ post.cap # "none"
+         /\ Prop = "C07" =>
               post.cap = (IF pre.cap = "none" THEN r.kind ELSE IF r.kind = "write" THEN "write" ELSE pre.cap)
     [] r.ev = "Open" ->
          /\ Same(pre, post, Fields)
-         /\ "cap" \in Fields => (r.res = "ok") = (pre.cap # "none")
+         /\ Prop = "C07" => (r.res = "ok") = (pre.cap # "none")
     [] r.ev = "Close" -> Same(pre, post, Fields)
     [] r.ev = "Put" ->
-         /\ Same(pre, post, Fields \ {"st"})
+         /\ Same(pre, post, Fields \ {"st", "derived"})
          \* (a handle on a document that no longer exists can only arise from a wrongful removal: C16's to report)
          /\ (Prop = "C07" /\ pre.cap # "none") =>
               IF r.path \in {"local", "delete"} /\ pre.cap # "write"
@@ -75,12 +79,12 @@ Target(r) ==
          /\ Prop \in {"C16", "C18"} => (r.res # "ok" => Same(pre, post, {"st"}))
     [] r.ev = "Peer" ->
          /\ Same(pre, post, Fields \ {"peers"})
-         /\ "peers" \in Fields =>
+         /\ Prop = "C17" =>
               IF pre.cap = "none" THEN r.res # "ok" /\ post.peers = pre.peers
               ELSE r.res = "ok" /\ post.peers = MRU(pre.peers, r.p)
     [] r.ev = "Policy" ->
          /\ Same(pre, post, Fields \ {"pol"})
-         /\ "pol" \in Fields =>
+         /\ Prop = "C15" =>
               IF pre.cap = "none" THEN r.res # "ok" /\ post.pol = pre.pol
               ELSE r.res = "ok" /\ post.pol = [kind |-> r.kind, filters |-> r.filters]
     [] r.ev = "Remove" ->
@@ -107,8 +111,9 @@ Global(r) ==
 Check(r) ==
   CASE r.ev \in {"Reopen", "DropDerived"} ->
          /\ r.res = "ok"
-         /\ \A o \in 1..N : Same(docs[o], r.docs[o], IF Prop \in {"C16", "C18"} /\ r.ev = "Reopen" THEN All
-                                                         ELSE IF Prop = "C18" THEN {} ELSE Fields)
+         \* reopening an up-to-date file changes nothing a property looks at; after dropping derived tables the rebuilt
+         \* answers are judged by Derived (C18), not by equality with the old ones
+         /\ \A o \in 1..N : Same(docs[o], r.docs[o], IF r.ev = "DropDerived" THEN Fields \ {"derived"} ELSE Fields)
          /\ (Prop = "C18" /\ r.ev = "DropDerived") =>
                \A o \in 1..N : docs[o].cap = r.docs[o].cap /\ docs[o].st = r.docs[o].st
                                 /\ docs[o].peers = r.docs[o].peers /\ docs[o].pol = r.docs[o].pol
@@ -121,7 +126,7 @@ Check(r) ==
          /\ r.res = "ok"
          /\ St(post) = {f \in St(pre) : ~SameId(f, r.e)} \cup {r.e}
          /\ Derived(post)
-         /\ Same(pre, post, All \ {"st"})
+         /\ Same(pre, post, All \ {"st", "derived"})
          /\ \A o \in 1..N : o # d => Same(docs[o], r.docs[o], All)
     [] r.ev \in {"Import", "Open", "Close", "Put", "Peer", "Policy", "Remove"} ->
          Target(r) /\ Frame(r, r.d) /\ Global(r)
